@@ -9,6 +9,23 @@ BASELINE = ("cd /repo && env -u PYCRAFT_VERIF /venv/bin/python -m pytest -ra -q 
             "--timeout=900 --continue-on-collection-errors")
 
 CHECKS = {
+    'C05': dict(
+        technique='TLA+ packet codec over the reference encoders (PacketCodec.tla): TLC-generated field-list programs replayed into '
+                  'user-defined Packet subclasses (S->I); every library class x supported version x variant written and read back, the '
+                  'observations judged by the law Trace_RoundTrip.tla and the payloads of definition-driven classes recomputed by TLC '
+                  '(I->S)',
+        text='(a) PacketCodec.tla defines a payload as the id VarInt followed by the concatenation of the Wire reference encodings along '
+             'a definition; TLC enumerates definitions of <= 2 (thorough 3) fields over 13 typed values incl. arrays nested to depth 2 and '
+             'trailing byte arrays with 5 ids, and each is declared as a Packet subclass (definition and get_definition styles), written '
+             '(bytes must equal), read back (fields equal, buffer exhausted) and repr()ed. (b) For all 250 supported versions every class '
+             'of the 8 state/direction tables - with all player-list actions, combat events, face-player modes, map variants, plugin '
+             'response modes and spawn-object data modes, values generated from the field types - is written, its frame id compared '
+             'with the table id, read back into a fresh instance, compared field by field (angles / fixed point within a quantum), '
+             'checked for leftover bytes and repr(); TLC judges the recorded law. (c) For definition-driven classes whose types the '
+             'reference encoders cover TLC recomputes the payload from (id, typed field values).',
+        note='Trusted: TLC, pynbt (opaque), the harness\'s value generators and hand-written builders for the six hand-written codecs. A '
+             'change applied consistently to reader and writer of a hand-written codec is C07\'s to catch for core packets.',
+        design='5/C05'),
     'C20': dict(
         technique='TLA+ definition of the trackers as functions of the packet history (Trackers.tla), explored exhaustively over a '
                   'packet alphabet with the laws as invariants and every history replayed into the real tracker objects (S->I); long '
